@@ -46,7 +46,19 @@ impl<W: Write + Seek> DbcWriter<W> {
 
         // Calculate header values
         let record_count = record_set.len() as u32;
-        let field_count = schema.fields.len() as u32;
+        // The header counts columns: an array field contributes one per element
+        // (this is how `Schema::validate` counts them when the file is read back)
+        let field_count = schema
+            .fields
+            .iter()
+            .map(|f| {
+                if f.is_array {
+                    f.array_size.unwrap_or(0)
+                } else {
+                    1
+                }
+            })
+            .sum::<usize>() as u32;
         let record_size = schema.record_size() as u32;
         let string_block_size = string_block.len() as u32;
 
